@@ -1,7 +1,7 @@
 //@ assume: Transaction / PoolEntry / BlockHeader / the blockchain adapter are abstract; transaction::aggregate is an uninterpreted function of the transaction list (its real contract is proved in C12/aggregate); Transaction::validate, BlockChain::validate_tx and apply_tx_to_block_sums are abstract callees with uninterpreted "this check passed" meanings against a given header
 //@ assume: T6 rewrites: `txs.contains(&entry.tx)` => helper (element equality); `txs.extend(extra_tx)` => helper pushing the optional transaction; `entry.tx.clone()` / `extra_tx.clone()` / `self.entries.clone()` => helper clones; `for x in existing_entries {` => Verus iterator loop; log helper abstract
 //@ assume: decided here: the pool's joint-validity invariant. Pool::add_to_pool stores an entry ONLY after the aggregate of every transaction already in the pool, the optional extra transaction (the txpool aggregate when adding to the stempool) and the new transaction passed standalone validation, validation against the chain's UTXO set and the block-sums check at the given header; a duplicate is refused; Pool::reconcile re-admits entries one by one through that same gate, so after it the pool is a sub-sequence of the old one that is jointly valid at the new header
-//@ assumed_items: 19
+//@ assumed_items: 20
 //@ fns: Pool::add_to_pool, Pool::validate_raw_tx, Pool::reconcile
 #[verifier::external_body]
 #[derive(Clone, Copy)]
@@ -67,6 +67,9 @@ pub struct Pool { pub entries: Vec<PoolEntry>, pub blockchain: Chain }
 impl Pool {
     #[verifier::external_body]
     pub fn all_transactions(&self) -> (r: Vec<Transaction>) ensures r@ == txs_of(self.entries@) { unimplemented!() }
+    /// offered (not used by the pinned text of the functions under contract here; its own contract is C14/pool_mineable): the aggregate of everything in the pool plus the extra transaction, validated standalone
+    #[verifier::external_body]
+    pub fn all_transactions_aggregate(&self, extra_tx: Option<Transaction>) -> (r: Result<Option<Transaction>, PoolError>) ensures r matches Ok(Some(t)) ==> sp_valid(t, Weighting::NoLimit) { unimplemented!() }
     #[verifier::external_body]
     fn apply_tx_to_block_sums(&self, tx: &Transaction, header: &BlockHeader) -> (r: Result<BlockSums, PoolError>) ensures r.is_ok() ==> sp_sums_ok(*tx, *header) { unimplemented!() }
     #[verifier::external_body]
